@@ -299,6 +299,8 @@ def random_history(rnd: random.Random, prop: str, length: int) -> tuple[dict, li
             ev["buf"] = rnd.random() < 0.85
         elif r < w[7]:
             ev = dict(k="reboot", n=n) if rnd.random() < (0.5 if prop == "C05" else 0.75) else dict(k="cycle")
+            if prop in ("C05", "C03", "C04", "C06") and rnd.random() < 0.4:
+                ev = dict(k="sibling", p=rnd.choice(["1.5.1", "2.2.0", "1.4", "2.0.0"]))
             if prop == "C11":
                 ev = dict(k=rnd.choice(["snapshot", "reload", "cycle"]))
         else:
